@@ -40,9 +40,9 @@ type memTable struct {
 	fields []string
 }
 
-func (m *memTable) GetTimeout() int                            { return 10 }
-func (m *memTable) GetFields() ([]string, error)               { return m.fields, nil }
-func (m *memTable) GetFieldLinks() (map[string]string, error)  { return map[string]string{}, nil }
+func (m *memTable) GetTimeout() int                           { return 10 }
+func (m *memTable) GetFields() ([]string, error)              { return m.fields, nil }
+func (m *memTable) GetFieldLinks() (map[string]string, error) { return map[string]string{}, nil }
 func (m *memTable) FetchRow(id string) (*gripper.BaseRow, error) {
 	for _, r := range m.rows {
 		if r.Key == id {
@@ -89,14 +89,14 @@ func c15Cases(thorough bool) []c15Case {
 	t1 := &memTable{rows: []*gripper.BaseRow{row("r1", "name", "a", "n", 1.0), row("r2", "name", "b")}, fields: []string{"name"}}
 	t2 := &memTable{rows: []*gripper.BaseRow{row("s1", "k", "x"), row("s2")}, fields: []string{"k"}}
 	linkKinds := map[string]*gripper.BaseRow{
-		"r1-s1":       row("l1", "f", "r1", "t", "s1", "w", 1.0),
-		"r1-s2":       row("l2", "f", "r1", "t", "s2"),
-		"r2-s1":       row("l3", "f", "r2", "t", "s1"),
-		"missing-to":  row("l4", "f", "r1"),
-		"empty-to":    row("l5", "f", "r2", "t", ""),
-		"dangling-to": row("l6", "f", "r1", "t", "zz"),
-		"repeat":      row("l7", "f", "r1", "t", "s1", "w", 2.0),
-		"empty-from":  row("l8", "f", "", "t", "s1"),
+		"r1-s1":         row("l1", "f", "r1", "t", "s1", "w", 1.0),
+		"r1-s2":         row("l2", "f", "r1", "t", "s2"),
+		"r2-s1":         row("l3", "f", "r2", "t", "s1"),
+		"missing-to":    row("l4", "f", "r1"),
+		"empty-to":      row("l5", "f", "r2", "t", ""),
+		"dangling-to":   row("l6", "f", "r1", "t", "zz"),
+		"repeat":        row("l7", "f", "r1", "t", "s1", "w", 2.0),
+		"empty-from":    row("l8", "f", "", "t", "s1"),
 		"dangling-from": row("l9", "f", "qq", "t", "s2"),
 	}
 	variants := [][]string{
